@@ -1,7 +1,7 @@
 (* C05 - products, inverse, division, scaling.  Pinned theorems only. *)
 From Coq Require Import ZArith List Bool Reals Lra.
 From Flocq Require Import Core BinarySingleNaN.
-Require Import GV.FloatBase GV.FloatLemmas GV.AngleM GV.AngleProofs GV.GeonumM GV.GeonumProofs.
+Require Import GV.FloatBase GV.FloatLemmas GV.AngleM GV.AngleProofs GV.GeonumM GV.GeonumProofs GV.NewProofs GV.CtorProofs GV.PiBounds GV.TrigProofs GV.DotValue GV.DirProofs GV.ProdProofs.
 Open Scope R_scope.
 
 Theorem C05_mul : forall a b,
@@ -74,3 +74,26 @@ Print Assumptions C05_normalize.
 Theorem C05_pow_mag : forall (L : libm) g n, mag (gpow L g n) = powF L (mag g) n.
 Proof. reflexivity. Qed.
 Print Assumptions C05_pow_mag.
+
+(* associative up to rounding (magnitude: 5*2^-53 relative plus an underflow term) and the boundary
+   tolerance (angle totals: four addition tolerances; with the REAL pi, plus 2e-16) *)
+Theorem C05_assoc : forall a b c, canonp (rem (ang a)) -> canonp (rem (ang b)) -> canonp (rem (ang c)) ->
+  fin (mag (gmul_vv (gmul_vv a b) c)) -> fin (mag (gmul_vv a (gmul_vv b c))) ->
+  Rabs (R_ (mag a)) <= bpow radix2 500 -> Rabs (R_ (mag c)) <= bpow radix2 500 ->
+  Rabs (R_ (mag (gmul_vv (gmul_vv a b) c)) - R_ (mag (gmul_vv a (gmul_vv b c))))
+    <= 5 * / 9007199254740992 * Rabs (R_ (mag a) * R_ (mag b) * R_ (mag c)) + bpow radix2 (-572) /\
+  Rabs (theta (ang (gmul_vv (gmul_vv a b) c)) - theta (ang (gmul_vv a (gmul_vv b c))))
+    <= 4 * (R_ eps10 + / 2251799813685248) /\
+  Rabs (dirR (ang (gmul_vv (gmul_vv a b) c)) - dirR (ang (gmul_vv a (gmul_vv b c))))
+    <= 4 * (R_ eps10 + / 2251799813685248) + 2 / 10000000000000000.
+Proof. exact gmul_assoc. Qed.
+Print Assumptions C05_assoc.
+
+(* the inverse of the inverse: original magnitude within 5*2^-52 relative, original angle plus exactly four
+   blades (two half turns), remainder untouched - for magnitudes in [2^-500, 2^500] *)
+Theorem C05_inv_inv : forall g, canonp (rem (ang g)) -> fin (mag g) ->
+  bpow radix2 (-500) <= R_ (mag g) <= bpow radix2 500 ->
+  exists i r, inv g = Some i /\ inv i = Some r /\
+    Rabs (R_ (mag r) - R_ (mag g)) <= 5 * / 4503599627370496 * R_ (mag g) /\ steps_to (ang g) (ang r) 4.
+Proof. exact inv_inv. Qed.
+Print Assumptions C05_inv_inv.
